@@ -10,6 +10,8 @@ import (
 	"sync"
 	"sync/atomic"
 	"time"
+
+	"github.com/getlantern/wal"
 )
 
 // Verification hooks (build tag verif only): counters for exact quiescence,
@@ -73,4 +75,39 @@ func verifPoint(name string) {
 		}
 		os.Exit(137)
 	}
+}
+
+var verifReadOffsets sync.Map // "<db ptr>/<table>" -> wal.Offset of the last entry read by the table
+
+func verifRead(t *table, offset wal.Offset) {
+	verifReadOffsets.Store(fmt.Sprintf("%p/%s", t.db, t.Name), append(wal.Offset(nil), offset...))
+	verifCount("read", t)
+}
+
+// VerifQuiescent reports whether the (non-follower) table has read every entry
+// of its stream's WAL, processed every entry it read, and its row store has
+// applied every insert submitted to it.
+func (db *DB) VerifQuiescent(table string) bool {
+	t := db.getTable(table)
+	if t == nil {
+		return false
+	}
+	db.tablesMutex.Lock()
+	w := db.streams[t.From]
+	db.tablesMutex.Unlock()
+	if w == nil {
+		return false
+	}
+	_, latest, err := w.Latest()
+	if err != nil {
+		return false
+	}
+	if latest != nil {
+		last, ok := verifReadOffsets.Load(fmt.Sprintf("%p/%s", db, table))
+		if !ok || string(last.(wal.Offset)) != string(latest) {
+			return false
+		}
+	}
+	return db.VerifCounter(table, "processed") == db.VerifCounter(table, "read") &&
+		db.VerifCounter(table, "applied") == db.VerifCounter(table, "submitted")
 }
